@@ -15,8 +15,13 @@ SFX = ["", "I", "L", "S", "D", "$"]
 TYPES = ["I", "L", "S", "D", "$"]
 
 
+SPELL = {}       # base name -> how it is written in the program being rendered (set by render)
+
+
 def nm(b, sfx, rng):
-    """a name occurrence in random letter case"""
+    """a name occurrence in random letter case; a base name may be WRITTEN with dots (no record variable exists in these
+    programs, so a dot is a character of the name like any other: Names.tla sees the base name only)"""
+    b = SPELL.get(b, b)
     s = "".join(ch.lower() if rng.random() < 0.5 else ch.upper() for ch in b)
     return s + SUF[sfx]
 
@@ -28,6 +33,12 @@ def val_text(t, i):
 def render(p, rng, types_of):
     """types_of(stmt) -> the type the assigned value must have (so the literal is a number or a string)"""
     lines = []
+    SPELL.clear()
+    if p.get("dotted"):
+        SPELL.update({b: b + "." + tail for b, tail in (("A", "B"), ("B", "A.C"), ("M", "M"), ("Z", "Z9"), ("ZED", "X"), ("AB", "C"),
+                                                        ("F", "N"), ("X", "Y"), ("QA", "Z"), ("QB", "Q.Q"))})
+    SPELL.update(p.get("spell", {}))
+    used_show = set()
     for d in p["defs"]:
         lo, hi = chr(d["lo"]), chr(d["hi"])
         # the two letters of a range in independent letter case (DEFINT i-N)
@@ -44,6 +55,16 @@ def render(p, rng, types_of):
             return ind + "%s%s = %s" % (nm(s["b"], s["sfx"], rng), el, val_text(s["vt"], s["id"]))
         if k == "print":
             return ind + "PRINT %s%s" % (nm(s["b"], s["sfx"], rng), el)
+        if k == "parg":
+            # the name as an ARGUMENT of a call: printed by a SUB that takes it by value (in parentheses), or - form "bare",
+            # only where the type of what the name denotes is the parameter's - handed over as it stands
+            show = "PVS" if s["vt"] == "$" else "PVN"
+            if s.get("bare"):
+                show = "PR" + s["vt"].replace("$", "T")
+                used_show.add(show)
+                return ind + "%s %s%s" % (show, nm(s["b"], s["sfx"], rng), el)
+            used_show.add(show)
+            return ind + "%s (%s%s)" % (show, nm(s["b"], s["sfx"], rng), el)
         if k == "dimsfx" and s.get("arr"):
             return ind + "DIM %s(3)" % nm(s["b"], s["sfx"], rng)
         if k == "redim":
@@ -90,6 +111,9 @@ def render(p, rng, types_of):
         lines.append("FUNCTION %s" % nm(f["b"], f["t"], rng))
         lines.append("  %s = %s" % (nm(f["b"], f["t"], rng), val_text(f["t"], f["id"])))
         lines.append("END FUNCTION")
+    for show in sorted(used_show):
+        par = {"PVN": "V#", "PVS": "V$", "PRI": "V%", "PRL": "V&", "PRS": "V!", "PRD": "V#", "PRT": "V$"}[show]
+        lines += ["SUB %s (%s)" % (show, par), "  PRINT %s" % par, "END SUB"]
     return "\r\n".join(lines) + "\r\n"
 
 
@@ -202,8 +226,17 @@ def gen(tier, rng):
                 main = [mk("let", b, sfx=""), mk("let", b, sfx=resolve_type(d, ord(b[0]), "")), mk("print", b, sfx="")]
                 for s in SFX:
                     main.append(mk("print", b, sfx=s))
+                # the same names as ARGUMENTS of a call (by value in parentheses, and as they stand): a name denotes the same
+                # variable wherever it is used
+                for s in SFX:
+                    ty = resolve_type(d, ord(b[0]), s)
+                    main.append(mk("parg", b, sfx=s, vt=ty))
+                    main.append(mk("parg", b, sfx=s, vt=ty, bare=True))
                 main.append({"k": "call"})
-                progs.append(("deftype", build(d, main, [mk("print", b, sfx="")])))
+                for dotted in (False, True):
+                    pr = build(d, main, [mk("print", b, sfx=""), mk("parg", b, sfx="", vt=resolve_type(d, ord(b[0]), ""))])
+                    pr["dotted"] = dotted
+                    progs.append(("deftype", pr))
     # a later DEFtype statement takes letters back from an earlier one (every pair of types, DEFSNG included): the last
     # statement that covers a letter decides
     for t1 in TYPES:
@@ -232,7 +265,7 @@ def gen(tier, rng):
         for ext in (False, True):
             for arr in (False, True):
                 for use_sfx in SFX:
-                    for act in ("print", "let"):
+                    for act, dotted in (("print", False), ("let", False), ("parg", False), ("print", True), ("let", True), ("parg", True)):
                         argb = "QB" if arr else "QA"
                         if arr and not ext and not (use_sfx == t or (use_sfx == "" and t == "S")):
                             continue    # an undeclared array: implicit arrays are not supported (DESIGN 9.2), no oracle
@@ -242,9 +275,10 @@ def gen(tier, rng):
                         sub_ops = [mk(act, "X", sfx=use_sfx, arr=arr), mk("print", "X", sfx=t, arr=arr)]
                         pr = build([], main, sub_ops)
                         pr["params"] = [prm]
+                        pr["dotted"] = dotted
                         # the literal written by a LET inside the SUB must have the kind of the variable it names
                         for o in pr["sub"]:
-                            if o["k"] == "let":
+                            if o["k"] in ("let", "parg"):
                                 o["vt"] = t if (use_sfx in ("", t) and (ext or use_sfx == t or (use_sfx == "" and t == "S"))) else (use_sfx or "S")
                         progs.append(("param", pr))
     # REDIM with a bare name and with every suffix while a dynamic array of another (or the same) type exists, under every
@@ -265,8 +299,12 @@ def gen(tier, rng):
     for t in TYPES:
         for use_sfx in SFX:
             for where in ("main", "sub"):
-                for kind in ("print", "let", "dimsfx", "dimas", "const"):
-                    if kind == "dimas":
+                for kind, dotted in [(k, dt) for dt in (False, True) for k in ("print", "parg", "pargbare", "let", "dimsfx", "dimas", "const")]:
+                    if kind in ("parg", "pargbare"):
+                        op = mk("parg", "F", sfx=use_sfx, vt=t)
+                        if kind == "pargbare":
+                            op["bare"] = True
+                    elif kind == "dimas":
                         if use_sfx == "":
                             continue
                         op = mk("dimas", "F", t=use_sfx, shared=False)
@@ -277,6 +315,7 @@ def gen(tier, rng):
                     main = ([op] if where == "main" else []) + [{"k": "call"}, mk("print", "QA", sfx="I")]
                     pr = build([], main, [op] if where == "sub" else [])
                     pr["fn"] = [{"b": "F", "t": t, "id": 4}]
+                    pr["dotted"] = dotted
                     for o in pr["main"] + pr["sub"]:
                         if o["k"] == "let":
                             o["vt"] = use_sfx or "S"
@@ -284,10 +323,11 @@ def gen(tier, rng):
     # a parameter that carries the name of a FUNCTION: with another type it is a duplicate definition
     for t in TYPES:
         for pt in TYPES:
-            for ext in (False, True):
+            for ext, dotted in ((False, False), (True, False), (False, True), (True, True)):
                 main = [mk("let", "QA", sfx=pt), {"k": "call"}, mk("print", "QA", sfx=pt)]
                 pr = build([], main, [mk("print", "QB", sfx="I")])
                 pr["params"] = [{"b": "F", "t": pt, "ext": ext, "argb": "QA", "arr": False}]
+                pr["dotted"] = dotted
                 pr["fn"] = [{"b": "F", "t": t, "id": 4}]
                 for o in pr["main"]:
                     if o["k"] == "let":
@@ -304,7 +344,10 @@ def gen(tier, rng):
                 else:
                     sub_ops = [mk("print", "A", sfx="")]
                     main = [mk("const", "A", sfx=gsfx), dict(mk("const", "B", sfx=""), **ref), mk("print", "B", sfx=""), {"k": "call"}]
-                progs.append(("const-ref", build([], main, sub_ops)))
+                for dotted in (False, True):
+                    pr = build([], main, sub_ops)
+                    pr["dotted"] = dotted
+                    progs.append(("const-ref", pr))
     # all 1- and 2-statement declaration/use histories in main (then all names printed), x DEFtype sets
     ds_few = defsets[:1] + rng.sample(defsets[1:], 3 if tier == "quick" else 8)
     for d in ds_few:
@@ -341,7 +384,20 @@ def gen(tier, rng):
         d = rng.choice(defsets)
         m = [rng.choice(AM + BM) for _ in range(rng.randint(1, 5))]
         s = [rng.choice(AS + BS) for _ in range(rng.randint(0, 4))]
-        progs.append(("random", build(d, m + [{"k": "call"}] + final_prints(["A", "B"]), s + [mk("print", "A", sfx=""), mk("print", "B", sfx="$")])))
+        pr = build(d, m + [{"k": "call"}] + final_prints(["A", "B"]), s + [mk("print", "A", sfx=""), mk("print", "B", sfx="$")])
+        pr["dotted"] = rng.random() < 0.25
+        progs.append(("random", pr))
+    # the same over two names of which one is written as the other plus ".X": a name with a dot is a name of its own,
+    # whatever else begins like it (A = 1 : A.X = 2) and in whatever order the two are met
+    AXM = alphabet("AX", False)
+    AXS = alphabet("AX", True)
+    for _ in range(n // 4):
+        d = rng.choice(defsets)
+        m = [rng.choice(AM + AXM) for _ in range(rng.randint(1, 5))]
+        s = [rng.choice(AS + AXS) for _ in range(rng.randint(0, 4))]
+        pr = build(d, m + [{"k": "call"}] + final_prints(["A", "AX"]), s + [mk("print", "A", sfx=""), mk("print", "AX", sfx="$")])
+        pr["spell"] = {"AX": rng.choice(["A.X", "A.X.Y", "A..X"])}
+        progs.append(("random-prefix", pr))
     return progs
 
 
